@@ -17,6 +17,9 @@
 #include <pistache/os.h>
 #include <poll.h>
 #include <sys/syscall.h>
+#include <sys/wait.h>
+#include <sys/eventfd.h>
+#include <poll.h>
 #include <unistd.h>
 
 using namespace vh;
@@ -133,6 +136,42 @@ static std::string scenarioQueueSys(const std::vector<std::string>& w)
     bool wake = readable(efd);
     int left = 0; for (;;) { auto e = queue.popSafe(); if (!e) break; ++left; }
     return "popped=" + std::to_string(popped.size()) + " left=" + std::to_string(left) + " wake=" + (wake ? "1" : "0") + " injected=" + (injected ? "1" : "0");
+}
+
+// qfd <n>: the queue in a process whose descriptor 0 is free when the queue is bound (a daemon that closed its standard input): the
+// eventfd then IS descriptor 0.  n pushes, then: the notification must be pending, and every item must come out.
+static std::string scenarioQueueFd0(const std::vector<std::string>& w)
+{
+    if (w.size() != 2) return "bad-op";
+    int n = atoi(w[1].c_str());
+    int pfd[2]; if (::pipe(pfd) != 0) return "pipe-failed";
+    pid_t pid = ::fork();
+    if (pid < 0) return "fork-failed";
+    if (pid == 0) {
+        ::close(pfd[0]);
+        ::close(0);
+        std::string out;
+        {
+            int keep = ::dup(pfd[1]);                // takes 0 for a moment, so that the poller gets another number
+            Polling::Epoll poller;
+            ::close(keep);                           // 0 is free again: the eventfd of the queue will be descriptor 0
+            PollableQueue<int> queue;
+            queue.bind(poller);
+            int efd = static_cast<int>(queue.tag().value());
+            for (int i = 0; i < n; ++i) queue.push(10 + i);
+            pollfd p { efd, POLLIN, 0 };
+            bool wake = ::poll(&p, 1, 0) > 0;
+            int got = 0; for (;;) { auto e = queue.popSafe(); if (!e) break; ++got; }
+            out = "efd=" + std::string(efd == 0 ? "0" : "other") + " wake=" + (wake ? "1" : "0") + " popped=" + std::to_string(got);
+        }
+        ssize_t r = ::write(pfd[1], out.data(), out.size()); (void)r;
+        _exit(0);
+    }
+    ::close(pfd[1]);
+    char buf[256]; ssize_t k = ::read(pfd[0], buf, sizeof buf - 1); ::close(pfd[0]);
+    int st = 0; ::waitpid(pid, &st, 0);
+    if (k <= 0) return "child-failed";
+    buf[k] = 0; return buf;
 }
 
 // ---------------------------------------------------------------------------------------------------
@@ -255,6 +294,7 @@ int main()
     std::map<std::string, Op> ops;
     ops["q"] = scenarioQueue;
     ops["qsys"] = scenarioQueueSys;
+    ops["qfd"] = scenarioQueueFd0;
     ops["p"] = scenarioPromise;
     return runLoop(ops, 20);
 }
